@@ -146,9 +146,16 @@ def main(argv):
         test(argv[2], argv[3:], tier)
         return 0
     if argv[1] == 'testall':
+        only = [a for a in argv[2:] if a.startswith('from=')]
+        start = only[0][5:] if only else ''
         for sid in sorted(os.listdir(SEEDED)):
+            if sid < start:
+                continue
             if os.path.exists(os.path.join(SEEDED, sid, 'meta.json')):
-                test(sid, argv[2:], tier)
+                try:
+                    test(sid, [a for a in argv[2:] if not a.startswith('from=')], tier)
+                except Exception as e:
+                    print(sid, 'ERROR', repr(e)[:300])
         return 0
     print(__doc__)
     return 2
